@@ -9,12 +9,14 @@ RowsY == {<<"x", "1">>, <<"y">>, <<"blk", "1">>}
 Ops == [op : {"y"}, row : RowsY] \cup [op : {"enter"}, row : Blocks] \cup [op : {"enterif"}, row : Blocks, cond : BOOLEAN]
        \cup {[op |-> "enterdef", row |-> <<"blk", "0">>, kinds |-> <<"w", "int">>], [op |-> "enterdef", row |-> <<"blk", "">>, kinds |-> <<"w", "none">>]}
        \cup {[op |-> "ym", rows |-> <<<<"x", "1">>, <<"y">>>>], [op |-> "menter", rows |-> <<<<"blk", "1">>, <<"sub", "1">>>>], [op |-> "leave"]}
+       \cup {[op |-> "menterif", rows |-> <<<<"blk", "1">>, <<"sub", "1">>>>, cond |-> c, none |-> FALSE] : c \in {"true", "false", "default"}}
+       \cup {[op |-> "menterif", rows |-> <<<<"blk", "2">>>>, cond |-> "default", none |-> TRUE]}
 Init == prog = <<>> /\ depth = 0
 Next == /\ Len(prog) < MaxOps
         /\ \E o \in Ops :
              /\ (o.op = "leave" => depth > 0)
              /\ prog' = Append(prog, o)
-             /\ depth' = IF o.op \in {"enter", "enterif", "enterdef", "menter"} THEN depth + 1 ELSE IF o.op = "leave" THEN depth - 1 ELSE depth
+             /\ depth' = IF o.op \in {"enter", "enterif", "enterdef", "menter", "menterif"} THEN depth + 1 ELSE IF o.op = "leave" THEN depth - 1 ELSE depth
 AEqualsP == LET a == AParsed(prog) IN ~a.err /\ a.tree = Tree(prog)
 EmitCase == Emit => PrintT(<<"PROG", ToJson([p |-> prog])>>)
 =============================================================================
